@@ -64,7 +64,9 @@ type tev struct {
 	ID  string `json:"id"`
 	Op  string `json:"op"`
 	Obj string `json:"obj"`
-	seq int64
+	// Lock: the name of the lock of an acq / rel event without its mode ("" otherwise) - read by GluonLocksFree
+	Lock string `json:"lock"`
+	seq  int64
 	via string // touch events: the accessor of the state that was called (not part of the trace TLC reads)
 }
 
@@ -135,7 +137,14 @@ func translate(evs []rawEvent) *translated {
 		return n
 	}
 	emit := func(e rawEvent, g, id, op, obj string) {
-		out.Lines = append(out.Lines, tev{G: g, ID: id, Op: op, Obj: obj, seq: e.Seq})
+		lock := ""
+		if op == "acq" || op == "rel" {
+			lock = strings.TrimSuffix(strings.TrimSuffix(obj, ".W"), ".R")
+			if lock == "publishLock" {
+				lock = "publish"
+			}
+		}
+		out.Lines = append(out.Lines, tev{G: g, ID: id, Op: op, Obj: obj, Lock: lock, seq: e.Seq})
 		out.Bound[op]++
 	}
 	for _, e := range evs {
